@@ -93,7 +93,11 @@ class RecordingTask(M.Task):
         if self.data.get("mutate"):
             # an objective is arbitrary user code: it may edit the list it is given in place (rescaling, sorting, ...)
             try:
-                x[:] = [1e9 for _ in x] + [7]
+                for c in x:          # nested coordinates (a permutation is a list inside the position) ...
+                    if isinstance(c, list):
+                        c.append(99)
+                        c[0] = -5
+                x[:] = [1e9 for _ in x] + [7]          # ... and the outer list
             except TypeError:
                 pass
         return r
